@@ -489,6 +489,53 @@ ENTRY(h_c18_reduce){
     irsym_assert(ok2, T_REDUCE_TREE);
 }
 
+// C18: the increment of every operator call, for arbitrary (symbolic 64-bit) call sizes up to 2^31 particles per leaf / entries per list:
+// P2M, L2P: 1; M2M, M2L, L2L: the list length; P2P: |A|*|B|; P2PInner: n(n-1); nothing else moves; the call is forwarded unchanged
+struct NopKernel {
+    long fwd[4] = {0, 0, 0, 0};
+    template <class A, class B, class C> void P2M(const A&, const long[], const B&, const long n, C&){ fwd[0] = 1; fwd[1] = n; }
+    template <class A, class B, class C> void M2M(const A&, const long l, const B&, C&, const long[], const long n){ fwd[0] = 2; fwd[1] = n; fwd[2] = l; }
+    template <class A, class B, class C> void M2L(const A&, const long l, const B&, const long[], const long n, C&){ fwd[0] = 3; fwd[1] = n; fwd[2] = l; }
+    template <class A, class B, class C> void L2L(const A&, const long l, const B&, C&, const long[], const long n){ fwd[0] = 4; fwd[1] = n; fwd[2] = l; }
+    template <class A, class B, class C, class D> void L2P(const A&, const B&, const long[], const C&, D&, const long n){ fwd[0] = 5; fwd[1] = n; }
+    template <class A, class B, class C> void P2P(const A&, const long[], const B&, C&, const long ns, const A&, const long[], const B&, C&, const long nt, const long code){
+        fwd[0] = 6; fwd[1] = ns; fwd[2] = nt; fwd[3] = code; }
+    template <class A, class B, class C> void P2PInner(const A&, const long[], const B&, C&, const long n){ fwd[0] = 7; fwd[1] = n; }
+};
+enum AidCalls { T_CALL_DELTA = 215, T_CALL_OTHERS, T_CALL_FORWARD };
+ENTRY(h_c18_calls){
+    using CK = TbfInteractionCounter<NopKernel>;
+    CK k;
+    const U lim = U(1) << 31;
+    const U n1 = irsym_symbolic_u64(), n2 = irsym_symbolic_u64(), lv = irsym_symbolic_u64();
+    irsym_assume(n1 <= lim && n2 <= lim && lv < 64);
+    const long a = long(n1), b = long(n2), level = long(lv);
+    int sym = 0, cont = 0, cell = 0; const long idx[1] = {0};
+    // a non-zero starting value: two earlier calls
+    k.P2P(sym, idx, cont, cell, 3, sym, idx, cont, cell, 5, 0); k.M2L(sym, 2, cont, idx, 7, cell);
+    const auto c0 = k.getReduceData();
+    const long op = irsym_choose(7);
+    if(op == 0) k.P2M(sym, idx, cont, a, cell);
+    else if(op == 1) k.M2M(sym, level, cont, cell, idx, a);
+    else if(op == 2) k.M2L(sym, level, cont, idx, a, cell);
+    else if(op == 3) k.L2L(sym, level, cont, cell, idx, a);
+    else if(op == 4) k.L2P(sym, cell, idx, cont, cell, a);
+    else if(op == 5) k.P2P(sym, idx, cont, cell, a, sym, idx, cont, cell, b, level);
+    else k.P2PInner(sym, idx, cont, cell, a);
+    const auto c1 = k.getReduceData();
+    const U d[7] = { U(c1.P2M) - U(c0.P2M), U(c1.M2M) - U(c0.M2M), U(c1.M2L) - U(c0.M2L), U(c1.L2L) - U(c0.L2L), U(c1.L2P) - U(c0.L2P), U(c1.P2P) - U(c0.P2P),
+                     U(c1.P2PInner) - U(c0.P2PInner) };
+    const U expect = (op == 0 || op == 4) ? U(1) : (op == 5 ? n1 * n2 : (op == 6 ? n1 * n1 - n1 : n1));
+    irsym_assert(d[op] == expect, T_CALL_DELTA);
+    bool others = true; for(long i = 0; i < 7; ++i) if(i != op) others = others && d[i] == 0;
+    irsym_assert(others, T_CALL_OTHERS);
+    const NopKernel& nk = k;
+    bool fw = nk.fwd[0] == op + 1 && nk.fwd[1] == a;
+    if(op >= 1 && op <= 3) fw = fw && nk.fwd[2] == level;
+    if(op == 5) fw = fw && nk.fwd[2] == b && nk.fwd[3] == level;
+    irsym_assert(fw, T_CALL_FORWARD);
+}
+
 // C15 / C01 corner: a tree built from an empty particle set is a valid (if useless) input: build, query, execute, rebuild, export, destroy
 enum AidE { E_EMPTY = 230 };
 ENTRY(h_empty){
